@@ -127,7 +127,8 @@ func (p *c10) check(rec *core.Recorder, class string, set *mt.TmplSet, main stri
 		return
 	}
 	rec.Eval(class, canon, nontrivial)
-	res := renderFresh(srcs, main, ctxToGo(ctx), nil)
+	gctx := ctxToGo(ctx)
+	res := renderFresh(srcs, main, gctx, shadowedGlobals(rec, canon, gctx, nil))
 	if res.Panicked {
 		rec.Violate("panic", "panic@"+res.Site, "engine panicked: "+res.PanicVal, caseDump(srcs, main, ctx, map[string]any{"expected": want}), res.Stack)
 		return
